@@ -16,8 +16,9 @@ OUTCOMES = "RNLDIF"  # reply in time, no reply, late reply, two replies, ICMP/OS
 SEQS: List[Tuple[int, str]] = [(r, "".join(s)) for r in (1, 2, 3, 4) for s in itertools.product(OUTCOMES, repeat=r)]
 TIMEOUTS = [1, 2, 6, 0.5]
 RULE = ("All %d sequences of per-attempt outcomes from {reply in time, no reply, reply after the timeout, two replies, "
-        "ICMP/OS error, fatal socket error} of length = retries for retries in 1..4 are enumerated; quick runs each once "
-        "(timeout and latencies seeded), thorough runs each with every timeout in {1, 2, 6, 0.5} s and 8 latency seeds, "
+        "ICMP/OS error (port unreachable = ConnectionRefusedError, host/net unreachable and message-too-long = plain OSError), "
+        "fatal socket error} of length = retries for retries in 1..4 are enumerated; quick runs each with every timeout in "
+        "{1, 2, 6, 0.5} s (latencies and entry point seeded), thorough runs each with every timeout in {1, 2, 6, 0.5} s and 8 latency seeds, "
         "half through send_udp directly and half through Client.get. A scripted peer on the simulated network produces "
         "the outcome of attempt k. Oracle on the simulated transport under virtual time: sendto count <= retries, identical "
         "payloads, attempt k+1 exactly `timeout` virtual seconds after an unanswered attempt k, the first reply's bytes are "
@@ -35,19 +36,19 @@ shrink_lists: List[tuple] = []
 
 
 def total(tier: str) -> int:
-    return len(SEQS) if tier == "quick" else len(SEQS) * len(TIMEOUTS) * 8
+    return len(SEQS) * len(TIMEOUTS) if tier == "quick" else len(SEQS) * len(TIMEOUTS) * 8
 
 
 def exhaustive(tier: str) -> Optional[str]:
-    return "all %d outcome sequences (length = retries, retries 1..4)%s" % (
-        len(SEQS), "" if tier == "quick" else " x 4 timeouts x 8 latency seeds")
+    return "all %d outcome sequences (length = retries, retries 1..4) x 4 timeouts%s" % (
+        len(SEQS), "" if tier == "quick" else " x 8 latency seeds")
 
 
 def plan_for(tier: str, seed: int, i: int) -> dict:
     if tier == "quick":
-        retries, seq = SEQS[i]
+        retries, seq = SEQS[i % len(SEQS)]
         rng = rng_for(seed, ID, tier, i)
-        timeout = rng.choice(TIMEOUTS)
+        timeout = TIMEOUTS[i // len(SEQS)]
         latseed = rng.getrandbits(32)
         via = rng.choice(["send_udp", "client"])
     else:
